@@ -1017,7 +1017,18 @@ class Interp:
         init = self.repo.classes[cname].get('__init__')
         if init is not None:
             self.inline(init, obj, args, kw, fr, n)
+        elif args or kw or self.has_foreign_base(cname):
+            # no __init__ of its own but constructed with arguments, or a base class from a library: whatever builds the
+            # object (NamedTuple / dataclass machinery, an inherited __init__) is outside the fragment
+            raise Unknown('class %s is constructed by an __init__ the package does not define' % cname)
         return obj
+
+    def has_foreign_base(self, cname):
+        rel = self.repo.class_module[cname]
+        for c in self.repo.trees[rel].body:
+            if isinstance(c, ast.ClassDef) and c.name == cname:
+                return any(ast.unparse(b).split('.')[-1] not in ('object', 'Enum', 'IntEnum') and ast.unparse(b).split('.')[-1] not in self.repo.classes for b in c.bases)
+        return False
 
     def inline(self, target, recv, args, kw, fr, n, base_env=None, cls=None):
         if base_env is None and self.opaque is not None and self.opaque(target):
